@@ -45,8 +45,8 @@ theorem detectContainer_vcf (inflate3 : List Nat → Option (List Nat)) (pfx : L
 
 theorem readPrefix_schedule_free (r : Rd) (h : Rd.Ok r) :
     ∃ r', readPrefix r = .ok (r.data.take 65536, r') := by
-  obtain ⟨r', he, _⟩ := Rd.readToEnd_schedule_free (r.data.length + 1) r h (Nat.lt_succ_self _)
-  exact ⟨r', by unfold readPrefix; rw [he]⟩
+  obtain ⟨r', he, _⟩ := readPrefix_ok_rest r h
+  exact ⟨r', he⟩
 
 /-! ## factorisation through the call set -/
 
